@@ -352,6 +352,13 @@ def raise_rule(ctx: Ctx) -> None:
                     total += 1
                     key = f"{cn}|{short(g.qname)}|assert"
                     ok = short(g.qname) == "RiscvParser._list_access_at_zero_and_remove_inline_labels"
+                    if not ok:
+                        from ..assertproof import discharged
+                        if discharged(m, g, st):
+                            # the statements in front of it establish the asserted fact for every value (abstract interpretation of
+                            # the backward slice, residues split where the test speaks of `% 2**k`): it cannot fail
+                            r.inst(key + "|proved", "discharged by abstract interpretation of its backward slice")
+                            continue
                     r.check(ok, key, g.loc(st), f"`{seg(g, st)}` on the load path can raise AssertionError"
                             if not ok else "", "tabled: a two-token line always starts with its label string")
                     continue
